@@ -85,6 +85,12 @@ func genC16(g gen.G) C16Case {
 	bl := m.BlockM{Body: &m.BodyM{Attrs: map[string]m.AttrM{
 		"plain": {Flag: "optional", Cons: m.ConsM{K: "any", Ty: m.TyOf(cty.String)}},
 	}}}
+	// a non-key label may stand in front of the key labels: label indexes and positions in the key differ then
+	lead := 0
+	if nLabels > 0 && g.Chance(25) {
+		lead = 1
+		bl.Labels = append(bl.Labels, m.LabelM{Name: "lead"})
+	}
 	for i := 0; i < nLabels; i++ {
 		bl.Labels = append(bl.Labels, m.LabelM{Name: fmt.Sprintf("l%d", i), DepKey: true, Completable: true})
 	}
@@ -109,7 +115,7 @@ func genC16(g gen.G) C16Case {
 	for i := 0; i < nd; i++ {
 		d := m.DepM{}
 		for li := 0; li < nLabels; li++ {
-			d.Labels = append(d.Labels, m.LabelKeyM{Index: li, Value: gen.Pick(g, []string{"aws", "az", "t1"})})
+			d.Labels = append(d.Labels, m.LabelKeyM{Index: lead + li, Value: gen.Pick(g, []string{"aws", "az", "t1"})})
 		}
 		for _, n := range attrNames {
 			if g.Chance(75) {
